@@ -53,7 +53,9 @@ pub fn ignore_filter(entry: &DirEntry, ignore: &Option<Gitignore>) -> bool {
                 return true;
             }
             let path = entry.path();
-            let m = gi.matched(path, path.is_dir());
+            // As for git, a symbolic link to a directory is not a
+            // directory (unless the walk follows links).
+            let m = gi.matched(path, entry.file_type().is_dir());
             !m.is_ignore()
         }
     }
